@@ -81,7 +81,17 @@ func configTable(c *hx.Ctx, kind string) {
 		return
 	}
 	c.Traces += int64(len(rows))
+	var probes []func() // accepted although the table says invalid: tried out after the loop (at most 400, evenly spaced)
+	defer func() {
+		step := 1 + len(probes)/400
+		var sel []func()
+		for i := 0; i < len(probes); i += step {
+			sel = append(sel, probes[i])
+		}
+		parallel(len(sel), func(i int) { sel[i]() })
+	}()
 	for _, row := range rows {
+		row := row
 		var props *lzma.Properties
 		if row.Cfg.Props != nil && row.Cfg.Props[0] != -9 {
 			props = &lzma.Properties{LC: row.Cfg.Props[0], LP: row.Cfg.Props[1], PB: row.Cfg.Props[2]}
@@ -174,9 +184,11 @@ func configTable(c *hx.Ctx, kind string) {
 			// value) is fine as long as what it then does is right, so the accepted record is tried
 			// out instead of being reported: writers must produce a stream the reference decodes to
 			// the input, readers must decode a good stream.
-			if why := probeAcceptedConfig(kind, row.Cfg.Props, props, dict, row.Cfg.Buf, row.Cfg.Block, row.Cfg.Check, row.Cfg.None, row.Cfg.Matcher, row.Cfg.Sih, row.Cfg.Size); why != "" {
-				c.Violation(sig, fmt.Sprintf("%s configuration %+v is accepted by Verify (the decision table calls it invalid) and does not work: %s", kind, row.Cfg, why), replay)
-			}
+			probes = append(probes, func() {
+				if why := probeAcceptedConfig(kind, row.Cfg.Props, props, dict, row.Cfg.Buf, row.Cfg.Block, row.Cfg.Check, row.Cfg.None, row.Cfg.Matcher, row.Cfg.Sih, row.Cfg.Size); why != "" {
+					c.Violation(sig, fmt.Sprintf("%s configuration %+v is accepted by Verify (the decision table calls it invalid) and does not work: %s", kind, row.Cfg, why), replay)
+				}
+			})
 		case err != nil && row.Ok:
 			c.Violation(sig, fmt.Sprintf("%s configuration %+v: Verify returned %v, the decision table says ok=%v", kind, row.Cfg, err, row.Ok), replay)
 		case err == nil:
@@ -206,7 +218,11 @@ func probeAcceptedConfig(kind string, rawProps []int, props *lzma.Properties, di
 	if dict > 1<<26 {
 		return "" // too large to try out; such a record would have to be huge to be wrong silently
 	}
-	data := MakeData("text", 20000, int64(dict)+int64(buf))
+	n := 20000
+	if block > 0 && block < 256 {
+		n = 40 * int(block) // tiny blocks: a few dozen of them are enough
+	}
+	data := MakeData("text", n, int64(dict)+int64(buf))
 	if p := safely(func() {
 		var sink bytes.Buffer
 		var w io.WriteCloser
@@ -217,7 +233,8 @@ func probeAcceptedConfig(kind string, rawProps []int, props *lzma.Properties, di
 		case "lzma2":
 			w, err = lzma.Writer2Config{Properties: props, DictCap: dict, BufSize: buf, Matcher: lzma.MatchAlgorithm(matcher)}.NewWriter2(&sink)
 		case "lzma":
-			if sih {
+			if sih || size > 0 {
+				// the stated size is binding
 				data = data[:0]
 				if size > 0 {
 					data = MakeData("text", int(size), 3)
